@@ -204,6 +204,10 @@ func genSchemas(t *rapid.T) ([]rule, string) {
 	var rules []rule
 	for i := 0; i < n; i++ {
 		r := rule{name: fmt.Sprintf("rule%d", i), pattern: rapid.SampledFrom(patterns).Draw(t, "pattern")}
+		if rapid.IntRange(0, 2).Draw(t, "sharedname") == 0 {
+			// section names are labels, not keys: a copied rule with an unedited header (or a second [default]) is a rule of its own
+			r.name = rapid.SampledFrom([]string{"carbon", "default", "app", "everything else", "rule0"}).Draw(t, "name")
+		}
 		rt := rapid.SampledFrom(retentions).Draw(t, "ret")
 		r.ret, r.first = rt.s, rt.first
 		if rapid.IntRange(0, 2).Draw(t, "hasprio") == 0 {
